@@ -286,7 +286,18 @@ def r14f(ctx):
               loc=ctx.loc("pyrex.particle", st[0] if st else fn))
 
 
+def r14g(ctx):
+    repo = ctx.repo
+    ctx.rule("R14g", "the event tree finds particles by identity (list.index / in on the particle list): Particle and Interaction define no __eq__ / __hash__ of their own, "
+             "so two distinct particles with equal values are never confused", expected=2, kind="N")
+    for q in ("pyrex.particle.Particle", "pyrex.particle.Interaction", "pyrex.particle.Event"):
+        ci = repo.cls(q)
+        own = [st.name for c_ in [ci] + ci.mro()[1:] if c_.module.startswith("pyrex") for st in c_.node.body if isinstance(st, ast.FunctionDef) and st.name in ("__eq__", "__hash__", "__ne__")]
+        ctx.check(not own, "R14g", q, "compared by identity", f"defines {own}", key_detail="value equality", loc=ctx.loc(ci.module, ci.node))
+
+
 def run(ctx):
+    ctx.guard(r14g)
     ctx.guard(r14f)
     ctx.guard(r14a)
     ctx.guard(r14b)
@@ -297,6 +308,8 @@ def run(ctx):
 
 SELFTEST = {
     "faults": [
+        {"name": "particles compared by value", "file": "pyrex/particle.py", "old": "    @property\n    def id(self):", "new": "    def __eq__(self, other):\n        return isinstance(other, Particle) and self.energy==other.energy\n\n    __hash__ = None\n\n    @property\n    def id(self):",
+         "rule": "R14g"},
         {"name": "low-y probability made non-negative", "file": "pyrex/particle.py", "old": "0.128*np.sin(-0.197*(eps-21.8))", "new": "0.128*abs(np.sin(0.197*(eps-21.8)))", "rule": "R14f"},
         {"name": "one constant changed in one CTW table", "file": "pyrex/particle.py", "old": "                c_2 = -6.448", "new": "                c_2 = -6.484", "rule": "R14a"},
         {"name": "em_frac = y for CC e", "file": "pyrex/particle.py", "old": "                em_frac = 1 - self.inelasticity", "new": "                em_frac = self.inelasticity", "rule": "R14c"},
